@@ -154,6 +154,10 @@ def run(tier, res, is_known):            # noqa: F811  (extends the broker-level
     if any(not is_known(v) for v in res.violations):
         return
     product(_pf_tree, _pf_items(tier), res, is_known, label='portfolio-level tree', chunk=1)
+    if any(not is_known(v) for v in res.violations):
+        return
+    product(periodic, bm.periodic_items([FEE], repeats=(40, 150) if tier == 'quick' else (40, 150, 400)), res, is_known,
+            label='long periodic histories', chunk=4)
     res.extra['portfolio_tree_shapes'] = len(res.extra.get('portfolio_tree_shapes', ()))
     res.rule += ('; part 2: complete tree of Portfolio.transact_asset / update_market_value_of_asset histories (23 events, '
                  'depth 3-4) with the same holdings oracle')
@@ -163,6 +167,8 @@ _replay_broker = replay
 
 
 def replay(case):                         # noqa: F811
+    if case.get('harness') == 'periodic':
+        return bm.replay_periodic(case, 'C02.')
     if case.get('harness') != 'portfolio_tree':
         return _replay_broker(case)
     out = _pf_tree(('quick', tuple(tuple(e) for e in case['history']), 0))
@@ -173,6 +179,12 @@ _minimise_broker = minimise
 
 
 def minimise(case, clause):               # noqa: F811
+    if case.get('harness') == 'periodic':
+        return case
     if case.get('harness') != 'portfolio_tree':
         return _minimise_broker(case, clause)
     return case
+
+
+def periodic(item):
+    return bm.periodic_point(item, 'C02.', df_check=False)
